@@ -2,9 +2,9 @@ import OV.Model.C16Bind
 import OV.Drivers.Loop
 /-! Line-protocol driver for C16.
 
-* `C16 row <codes> <cx:0|1> <scripted|traced> <res> P <aarg>* K <aarg>* S <param>*` → `ok` | defects joined by `,`
-  (`codes` = code points of the qualified name joined by `,`; `aarg` = five `/`-separated fields
-  name, base, `L` (list), `O` (optional), `D` (has default), a dash standing for "no";
+* `C16 row <codes> <cx:0|1> <scripted|traced> <res> <function-name codes> P <aarg>* K <aarg>* S <param>*` → `ok` | defects joined by `,`
+  (`codes` = code points of the qualified name joined by `,`; `aarg` = six `/`-separated fields
+  name, base, `L` (list), `O` (optional), `D` (has default), `I` (integer-only Scalar), a dash standing for "no";
   `param` = eight fields name, `I` or `A`, attribute type, `R` (required), `V` (variadic), `P` (positional-or-keyword),
   annotation category (`missing`, `base:int`, `seqOf:int`, `otherOrigin`, `otherPlain`), `D` (python default))
 * `C16 rowk <same arguments as row>` → `true` | `false` (`bindsOkK`: also right for positional-by-keyword calls)
@@ -32,7 +32,7 @@ def parseAttr : String → Option AttrT
 
 def parseAArg (t : String) : Option AArg :=
   match t.splitOn "/" with
-  | [n, b, l, o, d] => (parseBase b).map (fun b => ⟨n, b, l == "L", o == "O", d == "D"⟩)
+  | [n, b, l, o, d, i] => (parseBase b).map (fun b => ⟨n, b, l == "L", o == "O", d == "D", i == "I"⟩)
   | _ => none
 
 def parsePyT : String → Option PyT
@@ -86,7 +86,8 @@ def showClause : Clause → String
   | .requiredBound => "requiredBound"
 
 def showDefect : Defect → String
-  | .undefinedOp => "undefinedOp" | .badName => "badName" | .sigClass => "sigClass" | .clause c => showClause c
+  | .undefinedOp => "undefinedOp" | .badName => "badName" | .complexName => "complexName"
+  | .schemaFlag => "schemaFlag" | .sigClass => "sigClass" | .clause c => showClause c
 
 def showSlot : Option Src → String
   | none => "-" | some (.pos i) => s!"p{i}" | some (.kw n) => s!"k:{n}"
@@ -104,16 +105,16 @@ def parseReg (t : String) : Option Registration :=
 
 def handle (args : List String) : String :=
   match args with
-  | "row" :: cs :: cx :: m :: r :: rest =>
-    (match parseCodes cs, parseMode m, parseRes r, sections rest with
-     | some cs, some m, some r, some (ps, ks, ss) =>
+  | "row" :: cs :: cx :: m :: r :: fc :: rest =>
+    (match parseCodes cs, parseMode m, parseRes r, parseCodes fc, sections rest with
+     | some cs, some m, some r, some fc, some (ps, ks, ss) =>
        (match ps.mapM parseAArg, ks.mapM parseAArg, ss.mapM parseParam with
         | some ps, some ks, some ss =>
-          let e : Entry := ⟨cs, cx == "1", m, r, ⟨ps, ks⟩, ss⟩
+          let e : Entry := ⟨cs, cx == "1", m, r, ⟨ps, ks⟩, ss, fc⟩
           if e.defects.isEmpty then "ok" else ",".intercalate (e.defects.map showDefect)
         | _, _, _ => "bad-op")
-     | _, _, _, _ => "bad-op")
-  | "rowk" :: _ :: _ :: m :: _ :: rest =>
+     | _, _, _, _, _ => "bad-op")
+  | "rowk" :: _ :: _ :: m :: _ :: _ :: rest =>
     (match parseMode m, sections rest with
      | some m, some (ps, ks, ss) =>
        (match ps.mapM parseAArg, ks.mapM parseAArg, ss.mapM parseParam with
